@@ -194,6 +194,8 @@ def run_unit(name, overlay=None, probe=False, rlimit=None, seed=None, tag="", ti
     cmd = ["verus", ur.path, "--crate-name", "unit_" + name, "--extern", f"bytes={bytes_rlib}", "--extern", f"priority_queue={pq_rlib}",
            "-L", f"dependency={depdir}", "--triggers-mode", "silent", "--error-format=json", "--output-json", "--time",
            "--multiple-errors", str(multiple_errors), "--no-report-long-running"]
+    if not rlimit:
+        rlimit = getattr(mod, "RLIMIT", None)
     if rlimit:
         cmd += ["--rlimit", str(rlimit)]
     if seed is not None:
@@ -257,7 +259,7 @@ def run_unit_retry(name, **kw):
     ur = run_unit(name, **kw)
     if ur.status == "rlimit":
         kw2 = dict(kw)
-        kw2["rlimit"] = (kw.get("rlimit") or 10) * 4
+        kw2["rlimit"] = (kw.get("rlimit") or getattr(load_unit(name), "RLIMIT", 10)) * 4
         ur2 = run_unit(name, **kw2)
         ur2.retried = True
         return ur2
